@@ -76,6 +76,7 @@ type leaseFacade struct {
 	createGo   chan struct{}
 	// the REPLY of the k-th renewal call can be held back: the call has taken effect in the store, the library
 	// has not seen its result yet
+	delReplyLost int32 // the reply of the next Delete is lost (the Delete itself is applied)
 	holdCasReply int32
 	casApplied   chan struct{}
 	casReplyGo   chan struct{}
@@ -142,8 +143,16 @@ func (f *leaseFacade) Delete(ctx context.Context, key string) error {
 	}
 	f.s.mu.Lock()
 	err := f.s.backing.Delete(ctx, key)
-	f.s.events = append(f.s.events, map[string]any{"e": "del", "p": f.p, "res": errClass(err), "t": f.s.now()})
+	res := errClass(err)
+	lost := err == nil && atomic.CompareAndSwapInt32(&f.delReplyLost, 1, 0)
+	if lost {
+		res = "replylost" // the Delete took effect, its reply does not arrive
+	}
+	f.s.events = append(f.s.events, map[string]any{"e": "del", "p": f.p, "res": res, "t": f.s.now()})
 	f.s.mu.Unlock()
+	if lost {
+		return errInjected
+	}
 	return err
 }
 
@@ -340,6 +349,37 @@ func runLeaseScenario(sc leaseScenario) (*leaseSys, bool) {
 		s.log(map[string]any{"e": "freetry", "p": 2, "ok": ok})
 		if ok {
 			contender.locker.Unlock()
+		}
+	case "delreplylost":
+		// Unlock's Delete takes effect but its reply is lost; the lock is handed over at once.  Whatever Unlock does
+		// about the error, the new holder's record must stay and nobody else may acquire for well over lease/8.
+		observe(t0+ttl/2+ttl/5, true)
+		atomic.StoreInt32(&holder.fac.delReplyLost, 1)
+		s.log(map[string]any{"e": "rel", "p": 1})
+		callPanics(func() { holder.locker.Unlock() })
+		s.log(map[string]any{"e": "unlocked", "p": 1})
+		if !contender.locker.TryLock(context.Background()) {
+			s.log(map[string]any{"e": "freetry", "p": 2, "ok": false})
+			break
+		}
+		s.log(map[string]any{"e": "acq", "p": 2})
+		for i := 0; i < 8; i++ {
+			time.Sleep(time.Duration(ttl/10) * time.Microsecond)
+			s.probe()
+			ok := waiter.locker.TryLock(context.Background())
+			s.log(map[string]any{"e": "try", "p": 3, "ok": ok})
+			if ok {
+				waiter.locker.Unlock()
+			}
+		}
+		s.log(map[string]any{"e": "rel", "p": 2})
+		contender.locker.Unlock()
+		s.log(map[string]any{"e": "unlocked", "p": 2})
+		observe(s.now()+ttl, false)
+		ok := waiter.locker.TryLock(context.Background())
+		s.log(map[string]any{"e": "freetry", "p": 3, "ok": ok})
+		if ok {
+			waiter.locker.Unlock()
 		}
 	case "slowreply":
 		// The k-th renewal has taken effect in the store but its reply is still on its way when the holder unlocks.
@@ -618,6 +658,7 @@ func driveLease(opt *Options) error {
 			for ph := 0; ph < 8; ph += 2 {
 				scs = append(scs, leaseScenario{Kind: "unlockrace", TTL: ttl, Periods: 2, Phase: ph})
 			}
+			scs = append(scs, leaseScenario{Kind: "delreplylost", TTL: ttl})
 			for k := 1; k <= 2; k++ {
 				scs = append(scs, leaseScenario{Kind: "slowreply", TTL: ttl, Periods: k, Phase: 0})
 				scs = append(scs, leaseScenario{Kind: "slowreply", TTL: ttl, Periods: k, Phase: 1})
@@ -631,6 +672,7 @@ func driveLease(opt *Options) error {
 			}
 			scs = append(scs, leaseScenario{Kind: "handoff", TTL: ttl, Phase: 6, Mix: 2})
 			scs = append(scs, leaseScenario{Kind: "handoff", TTL: ttl, Phase: 2, Mix: 2})
+			scs = append(scs, leaseScenario{Kind: "delreplylost", TTL: ttl})
 			// hand-off while the reply of the old holder's renewal is in flight
 			scs = append(scs, leaseScenario{Kind: "slowreply", TTL: ttl, Periods: 1, Phase: 2})
 			scs = append(scs, leaseScenario{Kind: "slowreply", TTL: ttl, Periods: 2, Phase: 2})
